@@ -45,6 +45,11 @@ class _CaseInsensitiveString(str):
         # type: () -> str
         return self.str_orig
 
+    def __reduce__(self):
+        # type: () -> Any
+        # (the class has __slots__, which the old pickle protocols need help with)
+        return (self.__class__, (self.str_orig,))
+
     def __hash__(self):
         # type: () -> int
         return hash(self.str_lower)
